@@ -391,3 +391,60 @@ def parallel_map(fn, items, nproc=16):
         return [fn(x) for x in items]
     with mp.get_context("fork").Pool(min(nproc, len(items))) as pool:
         return pool.map(fn, items, chunksize=max(1, len(items) // (nproc * 4)))
+
+
+def replay_parallel(ctx, behs, chunk_fn, on_result, what, n=16):
+    """chunk_fn((behaviours, seed)) -> list of (status, info, beh) with status in ok|mismatch|machinery|known.
+    on_result(status, info, beh) is called in the parent for every non-ok result."""
+    chunks = [(behs[i::n], ctx.seed * 1000 + i) for i in range(n) if behs[i::n]]
+    results = parallel_map(chunk_fn, chunks, n)
+    nbad = 0
+    for chunk in results:
+        for status, info, beh in chunk:
+            ctx.evaluations += 1
+            ctx.traces += 1
+            if status == "ok":
+                continue
+            if status == "machinery":
+                raise MachineryError(str(info))
+            nbad += 1
+            on_result(status, info, beh)
+    log("%s: replayed %d behaviours, %d not ok" % (what, len(behs), nbad))
+    return nbad
+
+
+def validate_trace(ctx, module, cfg, events, what, env=None, nexec=None, key="trace-rejected"):
+    """Generic trace validation: write events, run TLC on the trace spec; accepted iff invariant NotAccepted is
+    violated.  The trace spec prints <<"MAXL", l>> on every state."""
+    for i, e in enumerate(events):
+        if "offlattice" in json.dumps(e):
+            ctx.violation("trace-offlattice", "%s: event %d carries a value that is not on the lattice the specification prescribes: %s" % (what, i + 1, json.dumps(e)[:600]),
+                          {"events": events[max(0, i - 6):i + 1]})
+            return None
+    path = os.path.join(ctx.workdir, "%s_%d.ndjson" % (module, len(events)))
+    write_ndjson(path, events)
+    e = {"TRACE": path}
+    if env:
+        e.update(env)
+    r = tlc(module, cfg, workers=1, env=e, timeout=1800)
+    require_ok(r, module)
+    ctx.states += r.distinct
+    ctx.transitions += r.generated
+    ctx.cmds.append(r.cmd)
+    if nexec is None:
+        nexec = sum(1 for ev in events if ev.get("e") == "Reset")
+    if r.violation == "NotAccepted":
+        ctx.traces += nexec
+        ctx.evaluations += len(events)
+        log("%s: %d recorded executions (%d events) accepted by %s" % (what, nexec, len(events), module))
+        return r
+    if r.violation and r.violation != "NotAccepted":
+        ctx.violation("trace-invariant:" + r.violation, "%s: invariant %s of the specification is violated on a recorded execution" % (what, r.violation),
+                      {"tlc": counterexample(r)[-4000:]})
+        return r
+    ml = [int(x) for x in re.findall(r'"MAXL", (\d+)', r.out)]
+    l = max(ml) if ml else 0
+    bad = events[l - 1] if 0 < l <= len(events) else None
+    ctx.violation(key, "%s: event %d is not a step of the specification: %s" % (what, l, json.dumps(bad)[:800]),
+                  {"events": events[max(0, l - 8):l + 1], "index": l})
+    return r
